@@ -152,7 +152,7 @@ def rule_p1(ctx):
         """operand reads field `field` of a freshly built PanicResult whose field comes from reason / meta."""
         if op["k"] not in ("copy", "move"):
             return False, "not a place"
-        tr = body.trace(op["place"], through=protocol.DEREF_ONLY)
+        tr = body.trace(op["place"])
         if not tr:
             return False, "new value has no origin"
         for (r, p) in tr:
@@ -541,8 +541,11 @@ def rule_p2(ctx):
             if mir.callee(t) in (REPLACE, MUX_PANIC):
                 touch.add(fn["id"])
     known = {f["id"]} | set(jl)
-    for x in sorted(touch - known):
-        res.bad(Finding("P2", x, "unlisted protocol user", "function replaces / merges the panic record but is not a construct this rule analyses", ctx.fns[x]["sp"]))
+    extra = sorted(touch - known)
+    if extra and not res.findings:
+        # a function outside the table takes part in the protocol (new construct, or protocol steps moved into a helper):
+        # the rule cannot decide such code - fail closed without a verdict rather than guess
+        raise AnchorMissing("P2: %s replaces / merges the panic record but is not one of the constructs this rule analyses" % extra)
     res.note("constructs analysed: If, Match, ShortCircuitAnd, ShortCircuitOr, JoinLoop closure(s) %s" % jl)
     return res
 
